@@ -27,6 +27,14 @@ class RemainingOperationsObserver(FeatureObserver):
             if FeatureType.MACHINES in self.features:
                 self.features[FeatureType.MACHINES][operation.machines, 0] += 1
 
+    def reset(self):
+        # The unscheduled operations observer may have been subscribed after
+        # this observer. In that case, it has not been reset yet.
+        self.dispatcher.create_or_get_observer(
+            UnscheduledOperationsObserver
+        ).reset()
+        super().reset()
+
     def update(self, scheduled_operation: ScheduledOperation):
         if FeatureType.JOBS in self.features:
             job_id = scheduled_operation.job_id
